@@ -213,6 +213,7 @@ func H_DecodePatch() {
 	var err error
 	panicked := vx.CatchPanic(func() { p, err = jsonpatch.DecodePatch(text) })
 	vx.Assert(!panicked, "C04/decodepatch-no-panic")
+	vx.Assert(!panicked, "C11/decodepatch-returns")
 	if panicked {
 		vx.Note("panic", []byte(vx.PanicMsg()))
 		return
@@ -278,6 +279,7 @@ func H_DecodePatch_Template() {
 	var err error
 	panicked := vx.CatchPanic(func() { p, err = jsonpatch.DecodePatch(text) })
 	vx.Assert(!panicked, "C04/decodepatch-no-panic")
+	vx.Assert(!panicked, "C11/decodepatch-returns")
 	if panicked {
 		return
 	}
